@@ -4,7 +4,7 @@
 //! The core idea is that we install a custom panic hook (`init_panic_hook`) that runs when a thread
 //! panics. That hook tries to print information about the failing schedule by calling
 //! `persist_failure`.
-use std::cell::Cell;
+use std::cell::{Cell, RefCell};
 use std::fs::OpenOptions;
 use std::io::{ErrorKind, Write};
 use std::panic;
@@ -16,8 +16,14 @@ use crate::runtime::execution::{CurrentSchedule, ExecutionState};
 use crate::scheduler::serialization::serialize_schedule;
 
 // When we last persisted a schedule. Used so that we don't persist the same schedule twice.
+/// Marks "no schedule persisted yet for the current execution"
+const NOT_PERSISTED: usize = usize::MAX;
+
 thread_local! {
-    static SCHEDULE_PERSISTED_AT: Cell<usize> = const { Cell::new(0) };
+    /// Length of the schedule that was last persisted for the execution currently running on this thread
+    static SCHEDULE_PERSISTED_AT: Cell<usize> = const { Cell::new(NOT_PERSISTED) };
+    /// Configuration of the execution currently running on this thread (read by the panic hook)
+    static CURRENT_CONFIG: RefCell<Option<Config>> = const { RefCell::new(None) };
 }
 
 /// Persist (to stderr or to file) a message describing how to replay a failing schedule.
@@ -89,6 +95,12 @@ fn persist_failure_to_file(serialized_schedule: &str, destination: Option<&PathB
 /// See the module documentation for more details on how this method fits into the failure reporting
 /// story.
 pub fn init_panic_hook(config: Config) {
+    // The hook is process-wide and installed once, but each execution is persisted according to its own
+    // configuration: the hook looks up the configuration of the execution running on the panicking thread.
+    CURRENT_CONFIG.with(|c| *c.borrow_mut() = Some(config));
+    // A new execution: nothing has been persisted for it yet
+    SCHEDULE_PERSISTED_AT.set(NOT_PERSISTED);
+
     static INIT: Once = Once::new();
     INIT.call_once(|| {
         let original_hook = panic::take_hook();
@@ -96,7 +108,10 @@ pub fn init_panic_hook(config: Config) {
             eprintln!("Task failed, serializing schedule");
             let task_name = ExecutionState::failing_task();
             eprintln!("test panicked in task '{task_name}'");
-            persist_failure(&config);
+            let config = CURRENT_CONFIG.with(|c| c.try_borrow().ok().and_then(|c| c.clone()));
+            if let Some(config) = config {
+                persist_failure(&config);
+            }
             original_hook(panic_info);
         }));
     });
